@@ -68,6 +68,14 @@ type Out struct {
 	ErrSites   []ErrSite         `json:"errsites"`
 	Globals    []Global          `json:"globals"`
 	FieldFx    []*FxType         `json:"fieldfx"`
+	// C10 (metricsprog.go, accesses.go)
+	MetricsProgs  []*MProg            `json:"metrics_progs"`
+	MetricsFields map[string][]string `json:"metrics_fields"`
+	MetricsPublic map[string]map[string]string `json:"metrics_public"`
+	MetricsCallers []J `json:"metrics_callers"`
+	Accesses      []AccessSite        `json:"accesses"`
+	Cells         []CellInfo          `json:"cells"`
+	AccessNotes   []string            `json:"access_notes"`
 }
 
 func main() {
@@ -126,6 +134,7 @@ func main() {
 		}
 	}
 	globals(prog, pkgs, out)
+	errFlow(prog, cg, byPath, *outJSON) // errsites.go: error-flow table (C13/C11) -> errflow.json
 	for _, tn := range [][2]string{{"pkg/sql/parser", "Parser"}, {"pkg/sql/tokenizer", "Tokenizer"}} {
 		if p := byPath[mod+"/"+tn[0]]; p != nil {
 			if fx := fieldFx(prog, p, tn[1]); fx != nil {
@@ -133,6 +142,9 @@ func main() {
 			}
 		}
 	}
+	metricsProgs(byPath, out)
+	recordCallers(pkgs, out)
+	accesses(prog, pkgs, out)
 
 	b, _ := json.MarshalIndent(out, "", " ")
 	if err := os.WriteFile(*outJSON, b, 0o644); err != nil {
